@@ -80,3 +80,29 @@ WIG_TILING = Ob("C07-S1w", "R-SIB", "bigWig zoom tiling loop clauses incl. curso
 BED_TILING = Ob("C07-S1b", "R-SIB", "bigBed zoom tiling loop clauses (same normal form as the bigWig sibling)", SW.ob_bed_tiling, floor=3)
 SWEEPS = Ob("C06-S1", "R-SIB", "bigBed depth sweeps (summary vs zoom): identical increment loop, tail extension by exhaustive cases, flush loop, end-of-chromosome flush", SW.ob_sweeps, floor=7)
 A_STAT = "f64 accumulation order / rounding is not analysed (the property's equality is up to floating-point summation order)"
+
+from ..obs import staging as SG, pipeline as PL, durability as DU, termination as TM, refusal as RF
+
+MAILBOX = Ob("C12-D1", "R-DISC", "mailbox discipline: only `switch` stores Some (panics on a second switch); every other access is swap(None)", SG.ob_mailbox)
+WRITER_WRITE = Ob("C12-O1", "R-ORDER", "writer half: update()? dominates every write; four-state dispatch; flush per state", SG.ob_writer_write, floor=2)
+WRITER_UPDATE = Ob("C12-O2", "R-ORDER", "update(): one poll per non-Real state; whole staged content copied with `?` strictly before the state becomes Real", SG.ob_writer_update)
+WRITER_DROP = Ob("C12-O3", "R-ORDER", "Drop for the writer half: lock -> publish state -> notify, single path", SG.ob_writer_drop)
+CONSUMER = Ob("C12-O4", "R-ORDER", "await_real_file / expect_closed_write / len: wait under the mutex, then poll; copy arms per state (siblings of update)", SG.ob_consumer, floor=3)
+STAGING_TYPES = Ob("C12-T1", "R-TYPE", "neither half (nor BufferState) is Clone/Copy; consuming methods take self by value; both halves share one state", SG.ob_types)
+HANDOVER = Ob("C11-O1", "R-ORDER", "per chromosome: switch(dest) -> completion of the task owning the writer half -> dest = await_real_file() (5 loops incl. both CLI fan-outs)", PL.ob_handover, floor=7)
+QUEUES = Ob("C11-D1", "R-DISC", "FIFO / reversed-stack discipline: queued_reads, chrom_indices, remaining_chroms; start_processing before spawn; advance in pop order", PL.ob_queues, floor=5)
+FORBIDDEN = Ob("C11-D3", "R-DISC", "no completion-order / time / randomness / thread-id / try_recv construct on the write path; HashMap iteration sorted (zero-count rule + fixture)", PL.ob_forbidden)
+SOURCE_SIBS = Ob("C11-S1", "R-SIB", "serial and parallel sources call do_process(val, next-iff-same-chromosome).await? (4 sites)", PL.ob_source_siblings, floor=4)
+WRITER_SIBS = Ob("C11-S2", "R-SIB", "threaded / serial / from-bed text writers: identical format strings, argument order and whole-chromosome query", PL.ob_writer_siblings, floor=4)
+OPTION_TAINT = Ob("C11-F1", "R-FLOW", "inmemory / channel_size / nthreads reach only staging and scheduling calls", PL.ob_option_taint)
+MAGIC_OWNER = Ob("C14-H1", "R-DISC", "a non-zero magic is emitted only by write_info from its magic argument (4 call sites)", DU.ob_magic_owner)
+HEADER_LAST = Ob("C14-H2", "R-ORDER", "write_info is the last file operation of all four write entry points (then Ok(()))", DU.ob_header_last, floor=4)
+MUST_FLUSH = Ob("C14-F1", "R-ORDER", "every BufWriter on the write path is flushed with `?` before success is reported (output file x4, per-chromosome staging writer)", DU.ob_must_flush, floor=5)
+ERR_DISC = Ob("C14-E1", "R-ERR", "no Result is discarded on the write path (statement, `let _ =`, `.ok();`)", DU.ob_err_discipline)
+JOIN_RESULTS = Ob("C14-E2", "R-ERR", "the Result of every joined write task is propagated", DU.ob_join_results, floor=9)
+WRITE_LOOPS = Ob("C13-T2", "R-TERM", "every loop in bbiwrite/bigwigwrite/bigbedwrite/beddata/tempfilebuffer is classified as terminating (A/B/C/R/W)", TM.ob_write_loops, floor=21)
+RTREE_LOOP = Ob("C13-T1", "R-TERM", "get_rtreeindex terminates for every section count (abstract domain {0,1,>=2})", TM.ob_rtree_loop)
+AUTOSQL_LOOPS = Ob("C19-M1", "R-TERM", "all loops of autosql.rs terminate; token loops exit at end of input (abstract run with every token = \"\")", TM.ob_autosql_loops, floor=7)
+CHROM_ORDER = Ob("C13-G8", "R-PRED", "chromosome-order refusal (serial: !allow && prev >= next; parallel: !allow && cur > next), empty input refused, foreign record in a slice refused", RF.ob_chrom_order, floor=4)
+PARSE_ERRORS = Ob("C13-G9", "R-ERR", "parse_bed / parse_bedgraph / BedFileStream::next turn every missing or unparsable column into Some(Err)", RF.ob_parse_errors, floor=3)
+INPUT_PANICS = Ob("C13-P1", "R-PANIC", "no unwrap/expect on a value parsed from the data input in the converter CLIs, sources and parsers", RF.ob_input_panics)
